@@ -335,6 +335,17 @@ func c06Gen(tier string, rng *rand.Rand) []mCase {
 					c.expect, c.sigHint = "err", "inflated-count"
 					cs = append(cs, c)
 				}
+				// one more than there is (a fixed array: one more than it holds): judged by the model (and by the panic monitor)
+				if s.Ty == 9 || s.Ty == 8 {
+					n := len(s.Kids)
+					if s.Ty == 8 {
+						n /= 2
+					}
+					nb := append(append(append([]byte(nil), b.bytes[:cf.Start]...), mkCount(n+1)...), b.bytes[cf.End:]...)
+					c := mk("near-count", fmt.Sprintf("count of wire type %d at %d -> %d (one more than there is)", s.Ty, cf.Start, n+1), nb)
+					c.expect = "any"
+					cs = append(cs, c)
+				}
 				// a negative count (BYTE -1, SHORT -32768, INT -2^31) is no count: list, map and simple list alike
 				for _, neg := range [][]byte{{0x00, 0xff}, {0x01, 0x80, 0x00}, {0x02, 0x80, 0x00, 0x00, 0x00}} {
 					nb := append(append(append([]byte(nil), b.bytes[:cf.Start]...), neg...), b.bytes[cf.End:]...)
